@@ -359,7 +359,7 @@ fn eval13(case: &J) -> Eval {
 	let (out, err) = (text(&o.stdout), text(&o.stderr));
 	let args = format!("{:?}", c.args);
 	let usage_ok = |ev: &mut Eval| {
-		if !(err.starts_with("xt error") && err.contains("Usage:")) {
+		if !(err.starts_with("xt error") && err.to_ascii_lowercase().contains("usage")) {
 			ev.violate("usage/stderr", format!("xt {args}: exit 2 but stderr is not an 'xt error' line followed by the usage text: {:?}", show(&o.stderr)));
 		}
 		if !o.stdout.is_empty() {
@@ -372,7 +372,7 @@ fn eval13(case: &J) -> Eval {
 	let help_ok = |ev: &mut Eval, class: &Class| {
 		let good = match class {
 			Class::Version => out.starts_with("xt ") && out.lines().count() == 1,
-			_ => out.contains("Usage:") || out.contains("USAGE"),
+			_ => out.to_ascii_lowercase().contains("usage"),
 		};
 		if !good {
 			ev.violate("help/stdout", format!("xt {args}: exit 0 for a help/version request but stdout is {:?}", show(&o.stdout)));
@@ -384,7 +384,7 @@ fn eval13(case: &J) -> Eval {
 			ev.count("class.ambiguous", 1);
 			match code {
 				0 => {
-					if !(out.contains("Usage:") || out.contains("USAGE") || (out.starts_with("xt ") && out.lines().count() == 1)) {
+					if !(out.to_ascii_lowercase().contains("usage") || (out.starts_with("xt ") && out.lines().count() == 1)) {
 						ev.violate("help/stdout", format!("xt {args}: exit 0 for a help/version request but stdout is {:?}", show(&o.stdout)));
 					}
 				}
@@ -432,7 +432,8 @@ fn eval13(case: &J) -> Eval {
 					ev.violate("stderr/not-xt-error", format!("xt {args}: exit 1 but stderr does not begin with 'xt error': {:?}", show(&o.stderr)));
 				}
 				if let Some((_, name)) = &ex.failing {
-					if ex.failure_kind != "stdin-twice" && !err.contains(name.as_str()) {
+					let named = err.contains(name.as_str()) || (name == "standard input" && err.to_ascii_lowercase().contains("stdin"));
+					if ex.failure_kind != "stdin-twice" && !named {
 						ev.violate("stderr/input-not-named", format!("xt {args}: the failure belongs to input {name:?} but stderr does not name it: {:?}", show(&o.stderr)));
 					}
 				}
